@@ -3,10 +3,11 @@
    reads lines `case ||| impl_line` (formats: harness/src/bin/c20_dns.rs), turns the
    implementation's recorded events into labels of Model/DnsProto.v and runs the EXTRACTED
    [validate] on them:
-     Q payloads must be exactly a create_request (extracted query_of_bytes),
+     Q payloads must be exactly a create_request (extracted query_of_bytes / request_bytes),
      A payloads are compared byte for byte with the model's server_respond (inside step),
      R values, cache contents after the run (M) and the way the run ended (E) are checked by
-     validate; a crash must be explained by a panic site of the model (EvX).
+     validate; a crash must be explained by a panic site of the model (EvX; file and error kind of
+     the panic message name the site).
    prints ACCEPT ... or REJECT <why> per line. *)
 open Dnsproto_model
 
@@ -39,14 +40,21 @@ let parse_records (case : string) : (z list * z list) list =
   let k = int_of_string t.(r + 1) in
   List.init k (fun j -> (zbytes t.(r + 2 + 2 * j), addr_of_u32 (int_of_string t.(r + 3 + 2 * j))))
 
+(* the panic site of the model for `<file>:<line>:<kind>`: file and error kind decide (line numbers
+   move when the file is edited); sites are named after the line numbers of the tree as modelled *)
 let site_of_location (loc : string) : int =
   match String.split_on_char ':' loc with
-  | [ file; line ] ->
-      let l = try int_of_string line with _ -> raise (Reject ("crash location " ^ loc)) in
-      if file = "dns_server.rs" then l
-      else if file = "dns_client.rs" then 1000 + l
-      else if file = "socket_api.rs" then 2000 + l
-      else raise (Reject ("crash at a site the model does not have: " ^ loc))
+  | [ file; _line; kind ] -> (
+      match (file, kind) with
+      | "dns_server.rs", "HeaderTooShort" -> 61
+      | "dns_server.rs", "InvalidName" -> 64
+      | "dns_server.rs", "Cache" -> 141
+      | "dns_client.rs", "HeaderTooShort" -> 1091
+      | "dns_client.rs", "Utf8" -> 1093
+      | "dns_client.rs", "Index" -> 1095
+      | "dns_client.rs", "Cache" -> 1098
+      | "socket_api.rs", "Overflow" -> 2096
+      | _ -> raise (Reject ("crash at a site the model does not have: " ^ loc)))
   | _ -> raise (Reject ("crash location " ^ loc))
 
 let split_events (s : string) : string list list =
@@ -71,9 +79,19 @@ let check (cap : z option) (bw : bool) (line : string) : string =
         | [ "N"; c ] -> conn := int_of_string c
         | [ "L"; c; h; n ] -> events := EvL (z_of_int (int_of_string c), z_of_int (int_of_string h), zbytes n) :: !events
         | [ "Q"; c; p; payload ] -> (
-            match query_of_bytes (zbytes payload) with
-            | Some (id, n) -> events := EvQ (z_of_int (int_of_string c), z_of_int (int_of_string p), id, n) :: !events
-            | None -> raise (Reject ("query from client " ^ c ^ " port " ^ p ^ " is not a create_request")))
+            let bs = zbytes payload in
+            let zc = z_of_int (int_of_string c) in
+            let label id n = events := EvQ (zc, z_of_int (int_of_string p), id, n) :: !events in
+            match query_of_bytes bs with
+            | Some (id, n) -> label id n
+            | None -> (
+                (* a name with the delimiter does not decode to itself: the datagram must still be the
+                   create_request of a name this client has looked up *)
+                let id = match bs with a :: b :: _ -> z_of_int (int_of_z a * 256 + int_of_z b) | _ -> z_of_int 0 in
+                let names = List.filter_map (function EvL (c', _, n) when c' = zc -> Some n | _ -> None) !events in
+                match List.find_opt (fun n -> request_bytes id n = bs) names with
+                | Some n -> label id n
+                | None -> raise (Reject ("query from client " ^ c ^ " port " ^ p ^ " is not a create_request"))))
         | [ "A"; c; p; payload ] ->
             events := EvA (z_of_int (int_of_string c), z_of_int (int_of_string p), zbytes payload) :: !events
         | "R" :: c :: h :: n :: a :: _ -> (
